@@ -1,4 +1,4 @@
-import AsherahVerif.Proofs.EnvResObs
+import AsherahVerif.Proofs.EnvResCloseAll
 /-
 C09 — protected key memory is released: per call for DRKs, on Close for cached keys.
 
@@ -85,6 +85,26 @@ theorem closed_all_released_once_partial (t : Int) (ops : List Op) (hv : validFr
   have h := resInv_reachable t ops hv hnb
   ⟨h.live_zero_of_allClosed hc, h.2.multi_zero, h.2.aac_zero⟩
 
+def closed_all_released_once_closeAll_full : Prop :=
+  ∀ (t : Int) (ops : List Op), validFrom (World.init t) ops →
+    let w := (runOps (World.init t) ops).2
+    let w' := (runOps w (closeAllOps w)).2
+    liveSecrets w' = 0 ∧ multiClosed w' = 0 ∧ accessesAfterClose w' = 0
+
+/-- the same with the closing spelled out: from any reachable world, `Close` every session that is
+still open and then every factory that is still open (`closeAllOps`, always a well-formed
+continuation) — afterwards no secret is live, none was closed twice, none touched after close. -/
+theorem closed_all_released_once_closeAll_partial (t : Int) (ops : List Op) (hv : validFrom (World.init t) ops)
+    (hnb : NoBounded ops) :
+    let w := (runOps (World.init t) ops).2
+    let w' := (runOps w (closeAllOps w)).2
+    liveSecrets w' = 0 ∧ multiClosed w' = 0 ∧ accessesAfterClose w' = 0 := by
+  intro w w'
+  have h := resInv_reachable t ops hv hnb
+  obtain ⟨v, nb, hc⟩ := closeAll_spec w
+  have h' : QInv w' := QInv.runOps h _ v nb
+  exact ⟨h'.live_zero_of_allClosed hc, h'.2.multi_zero, h'.2.aac_zero⟩
+
 /-- number of entries in the key caches that have not been closed. -/
 def openEntries (w : World) : Nat := (liveObjs (cacheDead w) w.caches).length
 
@@ -97,6 +117,51 @@ entries of the open key caches — every live secret is the key of (at least) on
 theorem live_bound_partial (t : Int) (ops : List Op) (hv : validFrom (World.init t) ops) (hnb : NoBounded ops) :
     liveSecrets (runOps (World.init t) ops).2 ≤ openEntries (runOps (World.init t) ops).2 :=
   (resInv_reachable t ops hv hnb).2.live_le
+
+/-! ### data row keys, and factories without key caching -/
+
+/-- **drk_released**: `EncryptPayload` is "obtain the intermediate key, then `drkPart`"
+(`encryptPayload_eq`, by `rfl`), and whatever `drkPart` returns and whatever the faults, every
+secret it allocated — the data row key's `CreateRandom` secret — has been closed exactly once and
+not touched afterwards when it returns; the data row key never enters a key cache.  (`T`, `H`: any
+cache table and any set of held references containing the intermediate key, see `RI`.)  For
+`decrypt`: `decryptRow` allocates no secret at all. -/
+theorem drk_released (T : CTab) (H : List Nat) (x : Ctx) (p ik : Nat) (hik : ik ∈ H) (w : World)
+    (hi : RI T .none H w) :
+    (∀ i s, (drkPart x p ik w).2.secrets[i]? = some s → w.secrets.length ≤ i → s.closes = 1 ∧ s.aac = 0) ∧
+    (drkPart x p ik w).2.caches = w.caches ∧
+    (∀ ik' dk data w', (decryptRow ik' dk data w').2.secrets.length = w'.secrets.length) :=
+  have h := drkPart_released T H x p ik hik w hi
+  ⟨h.1, h.2, fun ik' dk data w' => decryptRow_no_secret ik' dk data w'⟩
+
+/-- at the level of public operations: after an `encrypt` / `decrypt` on an open session of a
+well-formed history, every secret that is still live — in particular every one the operation
+allocated — is the key of an entry of an open key cache; a data row key never is
+(`drk_released`), so it has been released. -/
+theorem op_live_secrets_are_cached (t : Int) (ops : List Op) (hv : validFrom (World.init t) ops) (hnb : NoBounded ops)
+    (i : Nat) (hlive : i ∈ liveIdx (runOps (World.init t) ops).2) :
+    i ∈ liveObjs (cacheDead (runOps (World.init t) ops).2) (runOps (World.init t) ops).2.caches :=
+  (resInv_reachable t ops hv hnb).2.live_in_cache hlive
+
+def nocache_all_released_full : Prop :=
+  ∀ (t : Int) (ops : List Op), validFrom (World.init t) ops →
+    let w := (runOps (World.init t) ops).2
+    ∀ s, sessionOpen w s → noCacheSession w s →
+      (∀ pay fl, liveSecrets (applyOp w (.encrypt s pay fl)).2 = liveSecrets w) ∧
+      (∀ d fl, liveSecrets (applyOp w (.decrypt s d fl)).2 = liveSecrets w)
+
+/-- **nocache_all_released**: on a session of a factory with `cacheSK = false ∧ cacheIK = false ∧
+sharedIK = false` (`noCacheSession`), every encrypt and every decrypt — whatever it returns,
+whatever the faults — releases every secret it allocates: the number of live secrets afterwards is
+what it was before.  (`NoBounded` concerns the *other* factories of the history.) -/
+theorem nocache_all_released_partial (t : Int) (ops : List Op) (hv : validFrom (World.init t) ops) (hnb : NoBounded ops) :
+    let w := (runOps (World.init t) ops).2
+    ∀ s, sessionOpen w s → noCacheSession w s →
+      (∀ pay fl, liveSecrets (applyOp w (.encrypt s pay fl)).2 = liveSecrets w) ∧
+      (∀ d fl, liveSecrets (applyOp w (.decrypt s d fl)).2 = liveSecrets w) := by
+  intro w s ho hn
+  obtain ⟨hq, hm⟩ := QMInv_runOps (QInv.init t) (MInv.init t) ops hv hnb
+  exact ⟨fun pay fl => nocache_encrypt hq hm s pay fl ho hn, fun d fl => nocache_decrypt hq hm s d fl ho hn⟩
 
 /-! ### why histories must be well-formed, and non-vacuity -/
 
@@ -112,21 +177,17 @@ entries but keeps them): the unrestricted statement is false — in the SDK as i
 theorem use_after_close_counterexample :
     accessesAfterClose (runOps (World.init (5 * nsPerSec)) misuse).2 = 1 ∧ ¬ validFrom (World.init (5 * nsPerSec)) misuse := by
   constructor
-  · decide
+  · decide +kernel
   · intro h
-    have := h.2.2.2.2.1
+    have := (sessionOpen_iff _ _).1 h.2.2.2.2.1
     revert this
-    unfold opOk sessionOpen
-    rintro ⟨ss, h1, h2, _⟩
-    revert h1 h2
-    decide
+    decide +kernel
 
 private def good : List Op :=
   [.newFactory pol 0 0 0 0, .getSession 0 0 0 0, .encrypt 0 7 [], .encrypt 0 8 [.ok, .err],
    .closeSession 0, .closeFactory 0]
 
-example : validFrom (World.init (5 * nsPerSec)) good :=
-  ⟨trivial, ⟨_, rfl⟩, ⟨_, rfl, rfl, _, rfl, rfl⟩, ⟨_, rfl, rfl, _, rfl, rfl⟩, ⟨_, rfl, rfl⟩, ⟨_, rfl, rfl⟩, trivial⟩
+example : validFrom (World.init (5 * nsPerSec)) good := (validFrom_iff _ _).2 (by decide +kernel)
 
 example : NoBounded good := by
   intro op h; simp [good] at h; rcases h with rfl | rfl | rfl | rfl | rfl | rfl <;> simp [NoBoundedOp, pol]
@@ -135,6 +196,34 @@ example : (runOps (World.init (5 * nsPerSec)) good).2.secrets.length = 4 ∧
     liveSecrets (runOps (World.init (5 * nsPerSec)) (good.take 4)).2 = 2 ∧
     openEntries (runOps (World.init (5 * nsPerSec)) (good.take 4)).2 = 2 ∧
     liveSecrets (runOps (World.init (5 * nsPerSec)) good).2 = 0 ∧
-    closedSecrets (runOps (World.init (5 * nsPerSec)) good).2 = 4 := by decide
+    closedSecrets (runOps (World.init (5 * nsPerSec)) good).2 = 4 := by decide +kernel
+
+
+/-- closing everything after one encrypt with `simple` key caches: the two cached keys (SK, IK) are
+released by the two `Close` calls — three secrets allocated, three closed, none live. -/
+example :
+    let w := (runOps (World.init (5 * nsPerSec)) (good.take 3)).2
+    (closeAllOps w).length = 2 ∧ liveSecrets w = 2 ∧
+    liveSecrets (runOps w (closeAllOps w)).2 = 0 ∧ closedSecrets (runOps w (closeAllOps w)).2 = 3 := by
+  decide +kernel
+
+private def polN : Policy :=
+  { expireAfter := 1000 * nsPerSec, revokeInterval := 1000 * nsPerSec, precision := 0,
+    cacheSK := false, cacheIK := false, sharedIK := false }
+
+private def histN : List Op := [.newFactory polN 0 0 0 0, .getSession 0 0 0 0]
+
+/-- a session without key caching: the first encrypt creates SK, IK and DRK and releases all three;
+in the second one the allocation of the IK's secret fails, the SDK falls back to creating a new IK
+(duplicate in the metastore, reload) and succeeds — five more secrets, all released. -/
+example : noCacheSession (runOps (World.init (5 * nsPerSec)) histN).2 0 := ⟨_, _, rfl, rfl, rfl, rfl, rfl⟩
+
+example :
+    let w := (runOps (World.init (5 * nsPerSec)) histN).2
+    sessionOpenB w 0 = true ∧
+    liveSecrets (applyOp w (.encrypt 0 7 [])).2 = 0 ∧ closedSecrets (applyOp w (.encrypt 0 7 [])).2 = 3 ∧
+    liveSecrets (applyOp (applyOp w (.encrypt 0 7 [])).2 (.encrypt 0 8 [.ok, .ok, .ok, .ok, .ok, .err])).2 = 0 ∧
+    closedSecrets (applyOp (applyOp w (.encrypt 0 7 [])).2 (.encrypt 0 8 [.ok, .ok, .ok, .ok, .ok, .err])).2 = 8 := by
+  decide +kernel
 
 end AsherahVerif.Props.C09
